@@ -28,7 +28,8 @@ Diag(e, s) == IF e.panic # "" THEN <<"panic">> ELSE <<Laws(e, e.m, e.mxx, e.m2, 
 Init == l = 1
 Next == /\ l <= Len(Rec)
         /\ l' = l + 1
-        /\ IF EventOK(Rec[l], l % 50000) THEN TRUE ELSE PrintT(<<"BAD", l, Rec[l].dom, Diag(Rec[l], l % 50000)>>)
+        /\ IF EventOK(Rec[l], l % 50000) THEN TRUE
+           ELSE PrintT(<<"BAD", l, Rec[l].dom, Rec[l].vk>>) /\ PrintT(<<"DIAG", l, Diag(Rec[l], l % 50000)>>)   \* BAD line kept short: TLC wraps long tuples
 Spec == Init /\ [][Next]_l
 Accepted == TLCGet("stats").diameter - 1 = Len(Rec)
 Post == IF Accepted THEN TRUE ELSE PrintT(<<"UNCONSUMED", TLCGet("stats").diameter>>) /\ FALSE
